@@ -45,13 +45,18 @@ def exp_cells(cells, V, n, off=1):
     return {(e["d"] - off, label(e["g"], V, n)): float(e["v"]) for e in cells}
 
 
-def diff(exp, got, tol=0.0):
+def diff(exp, got, tol=0.0, full=False):
     bad = []
     for k in set(exp) | set(got):
         e, g = exp.get(k, 0.0), got.get(k, 0.0)
         if abs(e - g) > tol + 1e-6 * abs(e):
-            bad.append([str(k), e, g])
-    return sorted(bad)[:6]
+            bad.append([k if full else str(k), e, g])
+    return bad if full else sorted(bad)[:6]
+
+
+def unigram_zero_only(bad):
+    """every differing cell is a 1-gram column (label is a 1-tuple) that the code left at zero"""
+    return bool(bad) and all(isinstance(k[1], tuple) and len(k[1]) == 1 and g == 0 for k, e, g in bad)
 
 
 def run_ngram(item):
@@ -78,9 +83,11 @@ def run_ngram(item):
         inv = {v: k for k, v in m.column_label_dictionary_.items()}
         if M.shape != (len(X), len(exp_cols)):
             fails.append({"what": "train shape", "got": list(M.shape)})
-        b = diff(exp_cells(item["train"], V, n), mat_cells(M, inv))
+        sig = []
+        b = diff(exp_cells(item["train"], V, n), mat_cells(M, inv), full=True)
         if b:
-            fails.append({"what": "train cells", "bad": b})
+            fails.append({"what": "train cells", "bad": [[str(k), e, g] for k, e, g in b][:6]})
+            sig.append(unigram_zero_only(b))
         m2 = NgramVectorizer(**kw)
         if m2.fit(X) is not m2:
             fails.append({"what": "fit does not return self"})
@@ -92,10 +99,18 @@ def run_ngram(item):
                 continue
             if T.shape != (len(data), len(exp_cols)):
                 fails.append({"what": nm + " shape", "got": list(T.shape), "expected": [len(data), len(exp_cols)]})
-            b = diff(exp_cells(exp, V, n), mat_cells(T, inv))
+            b = diff(exp_cells(exp, V, n), mat_cells(T, inv), full=True)
             if b:
-                fails.append({"what": nm + " cells", "bad": b})
-    return {"ok": not fails, "fails": fails[:4]}
+                fails.append({"what": nm + " cells", "bad": [[str(k), e, g] for k, e, g in b][:6]})
+                sig.append(unigram_zero_only(b))
+    out = {"ok": not fails, "fails": fails[:4]}
+    if fails and all(f["what"].endswith("cells") for f in fails) and sig and all(sig) and f_is_subgrams(item):
+        out["signature"] = "subgrams-unigram-columns-zero"
+    return out
+
+
+def f_is_subgrams(item):
+    return item["cfg"]["mode"] == "subgrams" and item["cfg"]["n"] > 1
 
 
 def run_merge(item):
